@@ -296,7 +296,7 @@ func (e *Engine) shrinkModel(st *State, extra []*Term, vals map[int]uint64) map[
 	if len(lens) == 0 {
 		return vals
 	}
-	for _, lim := range []uint64{64, 512, 4096, 1 << 16} {
+	for _, lim := range []uint64{64, 512, 4096, 1 << 16, 1 << 20, 1 << 24} {
 		ok := true
 		for _, l := range lens {
 			if vals[l.id] > lim {
